@@ -364,6 +364,25 @@ class Gen:
                     ops.append(['sets', i, ['s'] + vals])
                     cur = cur[:1 + i] + vals + cur[1 + i + kk:]
                 continue
+            if k in ('list', 'vec', 'cont') and len(cur) - 1 >= 1 and r.random() < 0.07:
+                # a view of another but COERCIBLE type is stored: other limit (bit lists, byte lists, lists), or the same
+                # layout built from separately evaluated type expressions (containers, vectors, unions)
+                i = r.randrange(len(cur) - 1)
+                et = t[1] if k != 'cont' else t[1 + i]
+                ke = kind(et)
+                x = self.val(et, 5)
+                ft = None
+                if ke in ('bl', 'Bl'):
+                    n_ = (len(x) - 1) // (2 if ke == 'Bl' else 1)
+                    ft = [ke, max(n_, r.choice([n_, et[1] + 1, 64, 256, 257, 2048, max(et[1] // 2, 1)]), 1)]
+                elif ke == 'list':
+                    ft = ['list', et[1], max(len(x) - 1, r.choice([et[2] + 1, 2 * et[2] + 5, 1, 300]))]
+                elif ke in ('cont', 'vec', 'union', 'bv'):
+                    ft = et
+                if ft is not None:
+                    ops.append(['setc', i, ft, x])
+                    cur = cur[:1 + i] + [x] + cur[2 + i:]
+                    continue
             if k in ('list', 'vec', 'cont') and len(cur) - 1 >= 1 and r.random() < 0.05:
                 # a raw little-endian byte string assigned to an integer position (exact width, or longer with a zero tail)
                 i = r.randrange(len(cur) - 1)
@@ -373,6 +392,15 @@ class Gen:
                     raw = n_.to_bytes(UINT_W[et], 'little') + bytes(r.choice([0, 0, 2]))
                     ops.append(['setb', i, 'x' + raw.hex()])
                     cur = cur[:1 + i] + [str(n_)] + cur[2 + i:]
+                    continue
+            if k in ('list', 'vec', 'cont') and len(cur) - 1 >= 1 and r.random() < 0.05:
+                # an already hashed CONTAINER of another class with the same layout is stored
+                i = r.randrange(len(cur) - 1)
+                et = t[1] if k != 'cont' else t[1 + i]
+                if kind(et) == 'cont':
+                    x = self.val(et, 6)
+                    ops.append(['setv', i, x])
+                    cur = cur[:1 + i] + [x] + cur[2 + i:]
                     continue
             if k in ('list', 'vec', 'cont') and len(cur) - 1 >= 1 and r.random() < 0.1:
                 # an already hashed (tree-backed) sub-value is stored
@@ -529,6 +557,7 @@ class Gen:
             return ['set', t[1] + r.choice([0, 1, 300]), '1']
         if k == 'cont':
             c = [['set', len(t) - 1 + r.choice([0, 2]), '0']]
+            c.append(['setn', r.choice(['copy', 'fields', 'set', 'get', 'serialize', 'hash_tree_root', 'tree_depth', 'not_a_field', 'f99', 'F0']), '5'])
             for i, f in enumerate(t[1:]):
                 if is_basic(f) and f not in ('u256', 'bool'):
                     c.append(['set', i, str(1 << (8 * UINT_W[f]))])
